@@ -122,6 +122,10 @@ func setupWorker() *worker {
 	for _, k := range []string{"rsaA", "rsaB", "p256A", "p384", "p521"} {
 		w.leaf[k] = relicx.LeafOf(k)
 	}
+	for _, k := range bundleKeys {
+		w.leaf[k.Name] = relicx.LeafOf(k.Name)
+		w.pgpFP[k.Name] = loadPGPFingerprint(filepath.Join(relicx.KeyDir, "rsaA.pgp"))
+	}
 	w.pgpFP["rsaA"] = loadPGPFingerprint(filepath.Join(relicx.KeyDir, "rsaA.pgp"))
 	w.pgpFP["pgpOnly"] = loadPGPFingerprint(filepath.Join(relicx.KeyDir, "rsaB.pgp"))
 	w.verify = relicx.TrustOpts()
@@ -512,6 +516,10 @@ func main() {
 			reps = append(reps, kh{keyP256, crypto.SHA256})
 		} else {
 			reps = append(reps, kh{keyPGPOnly, crypto.SHA256})
+			// the same key behind certificate files of other shapes
+			for _, k := range bundleKeys {
+				reps = append(reps, kh{k, crypto.SHA256})
+			}
 		}
 		for _, h := range allDigests {
 			if t.Refuse(url.Values{})[h] {
